@@ -18,6 +18,7 @@ CONSTANTS Ver,          \* "37" | "38" | "39" | "310"
           MaxPrefix,    \* EXTENDED_ARG prefixes per instruction
           Classes,      \* operand classes the environment may emit
           ByteVals,     \* operand bytes
+          Scope,        \* "module" | "fn" (function, first constant None) | "fndoc" (function with a docstring)
           Emit
 
 D == INSTANCE Decode
@@ -30,13 +31,21 @@ NZ == INSTANCE Normalize
 
 \* a module-level code object with small tables (tokens are arbitrary distinct numbers; the
 \* `*_keys` say which entries the encoder could confuse: none here)
+\* Scope "module": no flags.  "fn": a function of one parameter (varnames[1]) whose first constant is
+\* None (token 50 is None) and second a string: the encoder's "prepend None" rule is in play.
+\* "fndoc": the first constant is a string, i.e. the docstring (tokens 50 and 51 swap roles).
+IsFn == Scope # "module"
 Base ==
     [names |-> <<10, 11, 12>>, varnames |-> <<20, 21>>, cellvars |-> <<30>>, freevars |-> <<40>>,
-     consts |-> <<50, 51, 52>>,
+     consts |-> IF Scope = "fndoc" THEN <<51, 50, 52>> ELSE <<50, 51, 52>>,
      name_keys |-> <<110, 111, 112>>, varname_keys |-> <<120, 121>>, cellvar_keys |-> <<130>>,
-     const_keys |-> <<150, 151, 152>>, none_key |-> 150,
-     const_is_str |-> <<FALSE, TRUE, FALSE>>, const_is_code |-> <<FALSE, FALSE, FALSE>>,
-     first |-> 1, argcount |-> 0, posonly |-> 0, kwonly |-> 0, flags |-> {},
+     const_keys |-> IF Scope = "fndoc" THEN <<151, 150, 152>> ELSE <<150, 151, 152>>, none_key |-> 150,
+     \* in scope "fn" the third constant is a string too (a string first used from slot 2, not slot 1)
+     const_is_str |-> IF Scope = "fndoc" THEN <<TRUE, FALSE, FALSE>> ELSE IF Scope = "fn" THEN <<FALSE, TRUE, TRUE>>
+                      ELSE <<FALSE, TRUE, FALSE>>,
+     const_is_code |-> <<FALSE, FALSE, FALSE>>,
+     first |-> 1, argcount |-> IF IsFn THEN 1 ELSE 0, posonly |-> 0, kwonly |-> 0,
+     flags |-> IF IsFn THEN {0, 1} ELSE {},
      name |-> 60, filename |-> 61, stacksize |-> 10, expected_all |-> 1,
      table |-> <<>>]
 
@@ -99,10 +108,11 @@ Result ==
     IN [exc |-> f.exc, instrs |-> f.instrs, block_starts |-> f.block_starts,
         block_lens |-> [b \in 1..nb |-> (IF b < nb THEN f.block_starts[b + 1] ELSE ni) - f.block_starts[b]],
         additional |-> f.additional,
-        is_fn |-> FALSE, params |-> <<>>, nargs |-> 0, doc |-> <<>>, fn_type |-> "",
+        is_fn |-> IsFn, params |-> IF IsFn THEN <<<<20, 1>>>> ELSE <<>>, nargs |-> IF IsFn THEN 1 ELSE 0,
+        doc |-> IF Scope = "fndoc" THEN <<51>> ELSE <<>>, fn_type |-> "",
         iter |-> <<>>, iter_exc |-> "", all_count |-> 1, all_first_self |-> TRUE]
 
-NoInsp == [ok |-> FALSE, bind |-> <<>>, doc |-> <<>>, kind |-> ""]
+NoInsp == [ok |-> IsFn, bind |-> IF IsFn THEN <<<<20, 1>>>> ELSE <<>>, doc |-> IF Scope = "fndoc" THEN <<51>> ELSE <<>>, kind |-> ""]
 
 \* C02 + C13 (+ the additional-args half of C09) on the reference decoder
 DecodeModel ==
@@ -118,11 +128,13 @@ AllToks == {Base.names[i] : i \in DOMAIN Base.names} \cup {Base.varnames[i] : i 
            \cup {Base.cellvars[i] : i \in DOMAIN Base.cellvars} \cup {Base.freevars[i] : i \in DOMAIN Base.freevars}
            \cup {Base.consts[i] : i \in DOMAIN Base.consts}
 KM == [t \in AllToks |-> <<t + 100, t + 100>>]
+StrToks == IF Scope = "fn" THEN {51, 52} ELSE {51}
 
 DataOf(r) ==
     [instrs |-> r.instrs, block_starts |-> r.block_starts, additional |-> r.additional, addline |-> <<>>,
-     is_fn |-> FALSE, args |-> [po |-> <<>>, pk |-> <<>>, va |-> <<>>, ko |-> <<>>, vk |-> <<>>],
-     doc |-> <<>>, fn_type |-> "", annotations |-> FALSE, nested |-> FALSE,
+     is_fn |-> IsFn,
+     args |-> [po |-> <<>>, pk |-> IF IsFn THEN <<20>> ELSE <<>>, va |-> <<>>, ko |-> <<>>, vk |-> <<>>],
+     doc |-> IF Scope = "fndoc" THEN <<51>> ELSE <<>>, fn_type |-> "", annotations |-> FALSE, nested |-> FALSE,
      freevars |-> Base.freevars, first |-> 1, name |-> 60, filename |-> 61, stacksize |-> 10]
 
 \* Domain of C01: what the compilers emit.  The <=3.9 peephole leaves redundant EXTENDED_ARG
@@ -135,12 +147,12 @@ MinimalWidths ==
 
 RoundTripModel ==
     (done /\ MinimalWidths) => LET r == Result
-                e == EN!Encode(DataOf(r), Ver, KM, {51}, 150, 20)
+                e == EN!Encode(DataOf(r), Ver, KM, StrToks, 50, 20)
             IN /\ e.exc = ""
                /\ e.units = [k \in DOMAIN units |-> <<units[k][2], units[k][3]>>]
                /\ e.names = Base.names /\ e.varnames = Base.varnames /\ e.cellvars = Base.cellvars
                /\ e.consts = Base.consts /\ e.freevars = Base.freevars
-               /\ e.flags = {} /\ e.argcount = 0
+               /\ e.flags = Base.flags /\ e.argcount = Base.argcount
 
 \* ---------------------------------------------------------------- C05 / C06 at design level
 Lines1 == [k \in 1..Len(units) |-> 1]
@@ -150,7 +162,8 @@ ClsOf(op) == IF op = "EXTENDED_ARG" THEN "EXT" ELSE op
 CodeOfEnc(e) ==
     [Base EXCEPT !.names = e.names, !.varnames = e.varnames, !.cellvars = e.cellvars, !.consts = e.consts,
                  !.freevars = e.freevars, !.flags = e.flags,
-                 !.const_is_str = [i \in DOMAIN e.consts |-> e.consts[i] = 51]]
+                 !.const_is_str = [i \in DOMAIN e.consts |-> e.consts[i] \in StrToks],
+                 !.argcount = e.argcount]
     @@ [units |-> [k \in DOMAIN e.units |-> <<ClsOf(e.units[k][1]), e.units[k][1], e.units[k][2]>>]]
 
 \* Normalize(from_code(c)) is the canonical data of c's meaning  (C06: canonical form)
@@ -161,7 +174,7 @@ CanonicalModel ==
 \* again gives the same data  (C06: stable under a round trip)
 NormalizeModel ==
     done => LET n == NZ!Normalize(DataOf(Result))
-                e == EN!Encode(n, Ver, KM, {51}, 150, 20)
+                e == EN!Encode(n, Ver, KM, StrToks, 50, 20)
                 c2 == CodeOfEnc(e)
                 l2 == [k \in 1..Len(c2.units) |-> 1]
             IN /\ e.exc = ""
